@@ -132,4 +132,32 @@ def NoOverflow (env : Env) (b : Batch) : Prop :=
 
 instance (env : Env) (b : Batch) : Decidable (NoOverflow env b) := by unfold NoOverflow; infer_instance
 
+
+/-! ## C03 -/
+
+/-- `order.ChannelTypeScriptEnforced`, `order.ChannelTypeSimpleTaproot` -/
+def chanScriptEnforced : Nat := 1
+def chanSimpleTaproot : Nat := 2
+
+/-- the commitment type two orders imply has a MuSig2 taproot funding output iff both asked for simple taproot
+channels and neither asked for script-enforced leases (otherwise the funding output is the p2wsh 2-of-2) -/
+def impliesTaprootFunding (oursCt theirsCt : Nat) : Bool :=
+  decide ((oursCt ≠ chanScriptEnforced ∧ theirsCt ≠ chanScriptEnforced) ∧
+    (oursCt = chanSimpleTaproot ∧ theirsCt = chanSimpleTaproot))
+
+/-- the trader-side funding key of an order: the sidecar recipient's key when our bid carries a ticket, else the
+key the wallet derives for the order -/
+def OurFundingKey (o : Ours) (k : Key) : Prop :=
+  if !o.isAsk && o.sidecar.isSome then o.sidecar = some (some k) else o.derivedKey = some k
+
+/-- one match is funded: an output of exactly units·100 000 + the bid's self balance paying to the funding script of
+the implied commitment type over our funding key and the counterparty's advertised key -/
+def FundsChannel (env : Env) (b : Batch) (o : Ours) (t : Their) : Prop :=
+  ∃ k, OurFundingKey o k ∧ ∃ out ∈ b.txOuts,
+    out.value = w64 (unitsSat t + bidSelfBalance o t) ∧
+    env.fundScript (impliesTaprootFunding o.chanType t.chanType) k t.multiSigKey = some out.script
+
+def FundsChannels (env : Env) (b : Batch) : Prop :=
+  ∀ nm ∈ b.matched, ∃ o, findOrder nm.1 env.orders = some o ∧ ∀ t ∈ nm.2, FundsChannel env b o t
+
 end Pool.Batch
